@@ -112,7 +112,7 @@ def write_fits(path, polys, pad, layout):
              fits.Column(name='STR', format='D', array=np.array([p['str'] for p in polys], dtype=np.float64)),
              fits.Column(name='USE_CAPS', format='J', bzero=2 ** 31,
                          array=np.array([p['use_caps'] for p in polys], dtype=np.uint32))]
-    assert n > 0
+    assert n > 0 and maxcaps > 0
     fits.HDUList([fits.PrimaryHDU(), fits.BinTableHDU.from_columns(cols)]).writeto(path)
 
 
@@ -144,6 +144,8 @@ def describe(polys):
                 nc, use, x, cm = p.ncaps, int(p.use_caps), p.x, p.cm
             else:
                 nc, use, x, cm = int(p['NCAPS']), int(p['USE_CAPS']), p['XCAPS'], p['CMCAPS']
+            if nc == 0:
+                x, cm = np.zeros((0, 3)), np.zeros((0,))
             x = np.asarray(x, dtype=np.float64).reshape(-1, 3)[0:nc]
             cm = np.asarray(cm, dtype=np.float64).reshape(-1)[0:nc]
             out.append({'ncaps': int(nc), 'use_caps': use, 'x': rows3(x), 'cm': fl(cm),
@@ -201,6 +203,9 @@ def job_window(j):
                 if route == 'kwargs':
                     kw = mng.PolygonList()
                     for p in polys:
+                        if len(p['cm']) == 0:
+                            kw.append(mng.ManglePolygon())     # "empty" polygon = whole sky
+                            continue
                         kw.append(mng.ManglePolygon(x=np.array(p['x'], dtype=np.float64).reshape(-1, 3),
                                                     cm=np.array(p['cm'], dtype=np.float64),
                                                     use_caps=p['use_caps'], id=p['id'], pixel=p['pixel'],
@@ -212,6 +217,17 @@ def job_window(j):
                     for p in polys:
                         got.append(mng.ManglePolygon(x=np.array(p['x'], dtype=np.float64).reshape(-1, 3),
                                                      cm=np.array(p['cm'], dtype=np.float64)))
+                elif route == 'add_caps':
+                    # first cap through the keyword constructor, the others appended with add_caps()
+                    got = mng.PolygonList()
+                    for p in polys:
+                        x = np.array(p['x'], dtype=np.float64).reshape(-1, 3)
+                        cm = np.array(p['cm'], dtype=np.float64)
+                        q = mng.ManglePolygon(x=x[0:1], cm=cm[0:1], use_caps=p['use_caps'], id=p['id'], pixel=p['pixel'],
+                                              weight=p['weight'], str=p['str'])
+                        if len(cm) > 1:
+                            q = q.add_caps(x[1:], cm[1:])
+                        got.append(q)
                 elif route == 'copy':
                     got = mng.PolygonList()
                     for p in kw:
@@ -255,6 +271,27 @@ def job_window(j):
     return out
 
 
+def job_sweep(j):
+    """is_in_polygon for every use-mask and every ncaps value of one small polygon."""
+    x = np.array(j['x'], dtype=np.float64).reshape(-1, 3)
+    cm = np.array(j['cm'], dtype=np.float64)
+    pts = np.array(j['pts'], dtype=np.float64).reshape(-1, 3)
+    out = []
+    for mask in j['masks']:
+        poly = mng.ManglePolygon(x=x, cm=cm, use_caps=mask)
+        row = []
+        for nc in j['ncaps_list']:
+            try:
+                row.append([bool(b) for b in mng.is_in_polygon(poly, pts, ncaps=nc)])
+            except Exception as e:  # noqa: BLE001
+                row.append(err(e))
+        out.append(row)
+    flags = np.zeros((pts.shape[0],), dtype=bool)
+    for k in range(len(cm)):
+        flags |= np.isnan(mng.cap_distance(x[k], float(cm[k]), pts))
+    return {'sweep': out, 'cart_nan': [bool(b) for b in flags]}
+
+
 def job_setuse(j):
     p = j['poly']
     poly = mng.ManglePolygon(x=np.array(p['x'], dtype=np.float64).reshape(-1, 3),
@@ -283,6 +320,8 @@ def main():
                 res.append(job_window(j))
             elif j['f'] == 'setuse':
                 res.append(job_setuse(j))
+            elif j['f'] == 'sweep':
+                res.append(job_sweep(j))
             else:
                 res.append({'err': 'BadJob'})
         except Exception as e:  # noqa: BLE001
